@@ -82,6 +82,8 @@ CHECK = {
    # envelope level over real connections (victim node in a child process) / sync downloads against hostile well-formed peers
    {'pkg': 'c09', 'run': 'TestWireEnvelopes|TestWireRandom', 'checks': 120, 'timeout': 900},
    {'pkg': 'c09', 'run': 'TestDownloaderHostilePeers|TestDownloaderRandomPeer', 'checks': 60, 'timeout': 900},
+   # the whole sync conversation (Executer.process -> Syncer.Sync -> fast / block sync) against one scripted hostile peer
+   {'pkg': 'c09', 'run': 'TestSyncConversationHostilePeers|TestSyncConversationRandom', 'checks': 50, 'timeout': 900},
    # semantically hostile, well-formed, correctly signed blocks of a legitimate validator through Executer.process
    {'pkg': 'c09', 'run': 'TestSignedBlocksEnumerated', 'gomaxprocs': 4, 'timeout': 900},
    {'pkg': 'c09', 'run': 'TestSignedBlocksRandom', 'checks': 250, 'gomaxprocs': 4, 'timeout': 900},
@@ -93,6 +95,7 @@ CHECK = {
    {'pkg': 'c09', 'run': 'TestRandomMutations|TestRandomBytes|TestStructuredRandom', 'checks': 600000, 'shards': 10, 'timeout': 2400},
    {'pkg': 'c09', 'run': 'TestWireEnvelopes|TestWireRandom', 'checks': 6000, 'shards': 2, 'timeout': 2400},
    {'pkg': 'c09', 'run': 'TestDownloaderHostilePeers|TestDownloaderRandomPeer', 'checks': 1500, 'shards': 2, 'timeout': 2400},
+   {'pkg': 'c09', 'run': 'TestSyncConversationHostilePeers|TestSyncConversationRandom', 'checks': 1200, 'shards': 2, 'timeout': 2400},
    {'pkg': 'c09', 'run': 'TestSignedBlocksEnumerated', 'shards': 4, 'timeout': 2400},
    {'pkg': 'c09', 'run': 'TestSignedBlocksRandom', 'checks': 8000, 'shards': 4, 'timeout': 2400},
    # native coverage-guided campaigns (one at a time, all cores); a crasher becomes a VIOLATION with the input as replay file
@@ -105,5 +108,5 @@ CHECK = {
    {'pkg': 'c09', 'fuzz': 'FuzzGossipEnvelope', 'fuzztime': '30s', 'timeout': 600},
    {'pkg': 'c09', 'fuzz': 'FuzzResponseEnvelope', 'fuzztime': '30s', 'timeout': 600},
  ],
- 'replay': [{'pkg': 'c09', 'run': 'TestReplayCase|TestReplayDownload|TestRandomMutations|TestRandomBytes|TestStructuredRandom|TestWireRandom|TestDownloaderRandomPeer|TestSignedBlocksRandom', 'checks': 1, 'timeout': 900}],
+ 'replay': [{'pkg': 'c09', 'run': 'TestReplayCase|TestReplayDownload|TestReplayConversation|TestSyncConversationRandom|TestRandomMutations|TestRandomBytes|TestStructuredRandom|TestWireRandom|TestDownloaderRandomPeer|TestSignedBlocksRandom', 'checks': 1, 'timeout': 900}],
 }
